@@ -24,6 +24,17 @@ def run(ctx):
     fm = ctx.extra.get("mixes", [])
     ml.run_mixes(ctx, rpm, mjobs, max_paths=300 if ctx.quick else 20000)
     ctx.extra["mixes"] = {"future": fm, "mutex": ctx.extra.get("mixes", [])}
+    # stepping a synchronous generator in every access style (Generator.tla restricted to synchronous bodies): the
+    # replayer counts operator new inside each consumer access; the specification fixes the total at 0
+    from checks import c13
+    c13.alloc_replay(ctx)
+    # carrying up to three ready coroutines in a suspend point: SuspendPoint.tla's InlineNoAlloc, replayed
+    try:
+        from checks import c06
+        if hasattr(c06, "alloc_replay"):
+            c06.alloc_replay(ctx)
+    except ImportError:
+        pass
     ctx.assume("value type int (does not allocate); std::make_exception_ptr of the test exception is the caller's allocation")
     ctx.assume("the lazily constructed thread-local ready queue (std::deque, once per thread) is not attributed to any operation: threads touch it before measurement")
     ctx.assume("more than three coroutine waiters released by one resolution (suspend point heap growth) is outside the property's 'up to three' clause and not exercised here")
